@@ -639,6 +639,7 @@ void TraverseSchema::preprocessInclude(const DOMElement* const elem) {
     fParser->setUserEntityHandler(fEntityHandler);
     fParser->setUserErrorReporter(fErrorReporter);
     fParser->setDisableDefaultEntityResolution(fScanner->getDisableDefaultEntityResolution());
+    fParser->setSecurityManager(fScanner->getSecurityManager());
 
     // Should just issue warning if the schema is not found
     bool flag = srcToFill->getIssueFatalErrorIfNotFound();
@@ -854,6 +855,7 @@ void TraverseSchema::preprocessImport(const DOMElement* const elem) {
     fParser->setUserEntityHandler(fEntityHandler);
     fParser->setUserErrorReporter(fErrorReporter);
     fParser->setDisableDefaultEntityResolution(fScanner->getDisableDefaultEntityResolution());
+    fParser->setSecurityManager(fScanner->getSecurityManager());
 
     // Should just issue warning if the schema is not found
     bool flag = srcToFill->getIssueFatalErrorIfNotFound();
@@ -8196,6 +8198,7 @@ bool TraverseSchema::openRedefinedSchema(const DOMElement* const redefineElem) {
     fParser->setUserEntityHandler(fEntityHandler);
     fParser->setUserErrorReporter(fErrorReporter);
     fParser->setDisableDefaultEntityResolution(fScanner->getDisableDefaultEntityResolution());
+    fParser->setSecurityManager(fScanner->getSecurityManager());
 
     // Should just issue warning if the schema is not found
     bool flag = srcToFill->getIssueFatalErrorIfNotFound();
